@@ -67,11 +67,23 @@ def split_args(s):
     return out
 
 
+def lexer_callback_view(F):
+    """lex_string with the private helpers of the lexer module it calls spliced in (`closing_quote_end(rest)`): the rules about the
+    callback speak about what it does, wherever a maintainer has put the loop"""
+    from lib import inline as IL
+    ls = F.fn("syntax::lexer::lex_string")
+    helpers = {c for _b, t in ls.calls() for c in [callee(t) or ""] if c.startswith("syntax::lexer::") and c in F.fns and F.fns[c].blocks and
+               c != ls.path and "GleamLexer" not in c and "{closure" not in c}
+    if not helpers:
+        return ls
+    return IL.inlined(F, ls, want=lambda p: p in helpers or (p.startswith("syntax::lexer::") and "GleamLexer" not in p and p != ls.path), depth=2)
+
+
 def lexer_bump_unit(F, res, rule="L1"):
     """lex_string advances the lexer by a BYTE length: every value that flows into Lexer::bump comes from byte
     quantities (char::len_utf8, str/slice len, char_indices offsets), never from a character count.
     (Lexer::bump panics on an offset that is past the end or inside a character: C02 shares this rule.)"""
-    ls = F.fn("syntax::lexer::lex_string")
+    ls = lexer_callback_view(F)
     d = FL.Defs(ls)
     bumps = [(b, t) for b, t in ls.calls() if FL.short(callee(t) or callee_def(t)) == "Lexer::bump"]
     contributing = set()
